@@ -26,7 +26,7 @@ def parseVal (s : String) : Option PanicVal :=
 
 def parseProgress : String → Option Progress
   | "N" => some .nothing | "H" => some .headerOnly | "B" => some .partialBody
-  | "F" => some .headerOnly        -- a flush only: the implicit 200 header is committed
+  | "F" | "E" => some .headerOnly  -- a flush only: the implicit 200 header is committed (E: the connection has FlushError)
   | "S" | "R" => some .partialBody -- WriteString / ReadFrom without an explicit header (status 200)
   | "I" => some .nothing           -- a 1xx informational header only: no final header has been sent
   | "C" => some .nothing           -- response headers set (Content-Length), nothing written
